@@ -120,6 +120,62 @@ Theorem C09_hesse_2x2 : forall a b c v11 v12 v21 v22,
 Proof. exact hesse_2x2. Qed.
 Print Assumptions C09_hesse_2x2.
 
+(* ---- cal_hesse_correct (get_params_error(method="correct", correct_params=[...])): the finite-difference entries that replace
+   the automatic-differentiation Hessian.  Diagonal stencil (points x+2e, x+e, x-e, x-2e) and mixed stencil are exact on
+   polynomials of degree <= 3, where they are THE second derivatives; on a quartic the truncation error is
+   (5/12) e^2 times the fourth derivative. ---- *)
+Theorem C09_hesse_correct_diag_exact_on_cubics : forall c0 c1 c2 c3 x e, e <> 0 ->
+  (forall t : R, is_derive (cubic c0 c1 c2 c3) t (c1 + 2 * c2 * t + 3 * c3 * t ^ 2)) /\
+  is_derive (fun t : R => c1 + 2 * c2 * t + 3 * c3 * t ^ 2) x (hc1 (cubic c0 c1 c2 c3) x e).
+Proof. exact hc1_cubic_second_derivative. Qed.
+Print Assumptions C09_hesse_correct_diag_exact_on_cubics.
+
+Theorem C09_hesse_correct_diag_truncation : forall c0 c1 c2 c3 c4 x e, e <> 0 ->
+  hc1 (quartic c0 c1 c2 c3 c4) x e = (2 * c2 + 6 * c3 * x + 12 * c4 * x ^ 2) + 10 * c4 * e ^ 2.
+Proof. exact hc1_quartic. Qed.
+Print Assumptions C09_hesse_correct_diag_truncation.
+
+Theorem C09_hesse_correct_mixed_exact_on_cubics : forall a0 a1 a2 a3 a4 a5 a6 a7 a8 a9 x y e, e <> 0 ->
+  (forall s t : R, is_derive (fun u : R => cubic2 a0 a1 a2 a3 a4 a5 a6 a7 a8 a9 u t) s
+                     (a1 + a3 * t + 2 * a4 * s + 2 * a6 * s * t + a7 * t ^ 2 + 3 * a8 * s ^ 2)) /\
+  is_derive (fun t : R => a1 + a3 * t + 2 * a4 * x + 2 * a6 * x * t + a7 * t ^ 2 + 3 * a8 * x ^ 2) y
+            (hc2 (cubic2 a0 a1 a2 a3 a4 a5 a6 a7 a8 a9) x y e).
+Proof. exact hc2_cubic2_mixed_derivative. Qed.
+Print Assumptions C09_hesse_correct_mixed_exact_on_cubics.
+
+(* the list forms tied to the code are these stencils along the coordinates *)
+Theorem C09_hesse_correct_list_forms : forall f xs e i j,
+  hc_diag f xs e i = hc1 (fun t => f (upd xs i t)) (nth i xs 0) e /\
+  hc_off f xs e i j = hc2 (fun s t => f (upd (upd xs i s) j t)) (nth i xs 0) (nth j xs 0) e.
+Proof. intros; exact (conj (hc_diag_unfold f xs e i) (hc_off_unfold f xs e i j)). Qed.
+Print Assumptions C09_hesse_correct_list_forms.
+
+(* before the repair (gm built from nll_mp instead of nll_pm) the diagonal entry was f'' + 2 f'/(3e) + e f'''/9: not the
+   second derivative wherever the gradient does not vanish exactly *)
+Theorem C09_hesse_correct_old_diag_value : forall c0 c1 c2 c3 x e, e <> 0 ->
+  hc1_old (cubic c0 c1 c2 c3) x e =
+  (2 * c2 + 6 * c3 * x) + 2 * (c1 + 2 * c2 * x + 3 * c3 * x ^ 2) / (3 * e) + e * (6 * c3) / 9.
+Proof. exact hc1_old_cubic. Qed.
+Theorem C09_hesse_correct_old_diag_refuted :
+  exists c0 c1 c2 c3 x e, e <> 0 /\ hc1_old (cubic c0 c1 c2 c3) x e <> 2 * c2 + 6 * c3 * x.
+Proof. exact hc1_old_refuted. Qed.
+Print Assumptions C09_hesse_correct_old_diag_refuted.
+
+(* ---- ParamsTrans.get_error_matrix: entry (k,l) of J V J^T; its diagonal is what get_error (vector) reports ---- *)
+Theorem C09_error_matrix_diagonal : forall J V k, (k < length J)%nat ->
+  jvjt_kl J V k k = quad_form V (nth k J []) /\ nth k (err_prop_vec J V) 0 = sqrt (jvjt_kl J V k k).
+Proof. intros J V k Hk; exact (conj (jvjt_diag J V k) (err_prop_vec_nth J V k Hk)). Qed.
+Print Assumptions C09_error_matrix_diagonal.
+
+(* ---- VarsManager.minimize / minimize_error before their repair: y' evaluated at y(x) instead of x; an inverse Hessian that is
+   already in physical coordinates scaled by y' once more ---- *)
+Theorem C09_minimize_old_dydx_at_y_refuted : bt_two_d 0 1 (bt_two 0 1 1) <> bt_two_d 0 1 1.
+Proof. exact minimize_old_dydx_at_y_refuted. Qed.
+Theorem C09_minimize_error_old_refuted :
+  exists d V, nth 0 (hesse_error (trans_error_matrix d V)) 0 <> nth 0 (hesse_error V) 0.
+Proof. exact minimize_error_old_refuted. Qed.
+Print Assumptions C09_minimize_error_old_refuted.
+
 (* ---- the rules before commits 3f1ea3b / 9f1dfe7 were NOT first order (findings F1, F2; kept for the record) ---- *)
 Example C09_pow_before_fix_value : 2127 / 1000 < nerr (ne_pow_old (2, 1 / 10) (3, 2 / 10)) < 2129 / 1000.
 Proof. exact pow_old_value. Qed.
